@@ -597,6 +597,86 @@ def _o_zero_padded(w):
     return not bad, ("check_output_pubkey verifies a zero-padded output key: " + ", ".join(bad)) if bad else "rejected"
 
 
+def _o_desc_ranged(w):
+    """tr(xpub/…/*, {tree of pk(xpub/…/*)}) at a derivation index: what the descriptor layer answers (script_pub_key,
+    taproot_merkle_root, taproot_leaf_scripts, the psbt updater, satisfy) is what taproot.* builds from the keys
+    derived INDEPENDENTLY at that index, and every control block proves its leaf against script_pub_key(index)"""
+    from btclib import bip32
+    from btclib.psbt.psbt_in import PsbtIn
+    idx = w["index"]
+    xs = [bip32.xpub_from_xprv(bip32.derive(bip32.rootxprv_from_seed(bytes.fromhex(sd)), "m/86h/0h/0h")) for sd in w["seeds"]]
+
+    def path(k, ranged):
+        return f"{k}/*" if ranged else f"{k}/{w['fixed']}"
+
+    def child(x, k, ranged):
+        return bip32.BIP32KeyData.b58decode(bip32.derive(x, f"m/{k}/{idx if ranged else w['fixed']}")).key
+
+    shape = w["shape"]
+
+    def expr(sh):
+        return f"pk({xs[1]}/{path(sh, w['ranged_leaves'])})" if isinstance(sh, int) else "{" + expr(sh[0]) + "," + expr(sh[1]) + "}"
+
+    def pytree(sh):
+        if isinstance(sh, int):
+            return [(0xC0, [child(xs[1], sh, w["ranged_leaves"])[1:].hex(), "OP_CHECKSIG"])]
+        return [pytree(sh[0]), pytree(sh[1])]
+    with arm(w["arm"]):
+        d = D.parse(D.add_checksum(f"tr({xs[0]}/{path(0, w['ranged_internal'])},{expr(shape)})"))
+        ik = child(xs[0], 0, w["ranged_internal"])
+        tree = pytree(shape)
+        info, root = T.tree_helper(tree)
+        q, par = T.output_pubkey(ik, tree)
+        spk = d.script_pub_key(idx).script
+        if spk != b"\x51\x20" + q:
+            return False, f"index {idx}: script_pub_key is not OP_1 output_pubkey(derived internal key, derived tree)"
+        if d.taproot_merkle_root(idx) != root:
+            return False, f"index {idx}: taproot_merkle_root"
+        want = {}
+        for i in range(len(info)):
+            sc, c = T.input_script_sig(ik, tree, i)
+            want[c] = (T.serialize(list(sc)), 0xC0)
+        pin = PsbtIn()
+        d._update(pin, idx, None)
+        views = {"taproot_leaf_scripts": d.taproot_leaf_scripts(idx), "psbt updater": dict(pin.taproot_leaf_scripts)}
+        if pin.taproot_internal_key != ik[1:] or pin.taproot_merkle_root != root:
+            return False, f"index {idx}: psbt updater internal key / merkle root"
+        # satisfy(): a script-path witness for each leaf key in turn (dummy signature: only the commitment is read here)
+        for i in range(len(info)):
+            leaf_key = child(xs[1], _leaf_at(shape, i), w["ranged_leaves"])
+            _, wit = d.satisfy({leaf_key: b"\x01" * 64}, idx)
+            st = [bytes(x) for x in wit.stack]
+            views[f"satisfy leaf {i}"] = {st[-1]: (st[-2], 0xC0)}
+        for name, got in views.items():
+            if name.startswith("satisfy"):
+                if not set(got.items()) <= set(want.items()):
+                    return False, f"index {idx}: {name}: control block / script not the ones of the derived tree"
+            elif got != want:
+                return False, f"index {idx}: {name} differs from input_script_sig on the derived keys"
+            for c, (sc, _) in got.items():
+                if c[1:33] != ik[1:]:
+                    return False, f"index {idx}: {name}: control block names internal key {c[1:33].hex()}, derived {ik[1:].hex()}"
+                if T.check_output_pubkey(spk[2:], sc, c) is not True:
+                    return False, f"index {idx}: {name}: control block does not prove its leaf against script_pub_key({idx})"
+                u = _call(taproot_unwrap_script, spk, [b"\x01" * 64, sc, c])
+                if u[0] != "ok":
+                    return False, f"index {idx}: {name}: engine.taproot_unwrap_script -> {u}"
+    return True, f"index {idx}: {len(info)} leaves"
+
+
+def _leaf_at(shape, i):
+    flat = []
+
+    def walk(sh):
+        if isinstance(sh, int):
+            flat.append(sh)
+        else:
+            walk(sh[0])
+            walk(sh[1])
+    walk(shape)
+    return flat[i]
+
+
 def _guard(fn):
     """an oracle that raises has found something: the real code left through an exception it should not"""
     def g(w):
@@ -611,7 +691,7 @@ def _guard(fn):
 ORACLES = {"cb.proves": _o_proves, "cb.bitflip": _o_bitflip, "tweak.agree": _o_agree, "key.refused": _o_refuse,
            "tweak.range": _o_tweak_range, "backends.agree": _o_backends, "desc.tr": _o_desc, "bip341.vector": _o_bip341,
            "bip341.keypath": _o_keypath, "engine.spend": _o_engine,
-           "key.zero_padded": _o_zero_padded}
+           "key.zero_padded": _o_zero_padded, "desc.ranged": _o_desc_ranged}
 ORACLES = {k: _guard(v) for k, v in ORACLES.items()}
 
 
@@ -863,6 +943,16 @@ def run(ctx):
             ks = [f"{mult(rng.randrange(1, N))[0]:064x}" for _ in range(5)]
             ctx.check("desc.tr", {"keys": ks, "shape": shape, "internal": f"{mult(rng.randrange(1, N))[0]:064x}",
                                   "arm": rng.choice(arms)})
+
+    # ranged tr(): internal key and leaf keys ranged independently, at several derivation indexes
+    rshapes = [1, (1, 2), (1, (2, 3)), ((1, 2), (3, 4)), (1, 1), ((1, 2), (1, 2))]
+    for ri, rl in ((True, True), (True, False), (False, True)):
+        for idx in (0, 1, 2, 2 ** 31 - 1):
+            for shape in (rng.sample(rshapes, 2) if ctx.tier == "quick" else rshapes):
+                ctx.count("desc.ranged index", str(idx))
+                ctx.check("desc.ranged", {"seeds": [common.rand_bytes(rng, 32).hex() for _ in range(2)], "shape": shape,
+                                          "ranged_internal": ri, "ranged_leaves": rl, "index": idx,
+                                          "fixed": rng.randrange(0, 1000), "arm": rng.choice(arms)})
 
     # BIP341 wallet vectors
     for a in arms:
